@@ -675,6 +675,17 @@ PROPS["C04"]["xcheck"] = "c04"
 PROPS["C20"]["xcheck"] = "c20"
 PROPS["C05"]["xcheck"] = "c05"
 PROPS["C07"]["xcheck"] = "c07"
+PROPS["C02"]["xcheck"] = "c02"
+PROPS["C06"]["xcheck"] = "c06"
+PROPS["C11"]["xcheck"] = "c11"
+PROPS["C14"]["xcheck"] = "c14"
+# (xcheckB) canonicalization and serde families: own Flocq-loading headers, sharded coqc (lib/coqx.py, block xcheckB)
+PROPS["C09"]["xcheck"] = "c09"
+PROPS["C10"]["xcheck"] = "c10"
+PROPS["C17"]["xcheck"] = "c17"
+PROPS["C18"]["xcheck"] = "c18"
+PROPS["C16"]["xcheck"] = "c16"
+PROPS["C03"]["xcheck"] = "c03"
 
 _m("C17", "Proved for every value: outside K4 (an object whose FIRST key is serde_json's private number token), and with numbers "
           "that are valid JSON numbers, to_value(&v) returns exactly v with -0 respelt 0 when no object has duplicate keys, and "
